@@ -590,6 +590,58 @@ func (self *Node) setPrenode(prenode Nodable) {
 	prenode.getNode().setPostNode(self)
 }
 
+// allPrenodes adds the nodes which this node depends on, directly or
+// indirectly, to the given set.  A pipeline which is depended upon is added
+// together with everything in it.
+func (self *Node) allPrenodes(result map[*Node]struct{}) map[*Node]struct{} {
+	for _, prenode := range self.prenodes {
+		result = prenode.getNode().addToPrenodeSet(result)
+	}
+	return result
+}
+
+func (self *Node) addToPrenodeSet(result map[*Node]struct{}) map[*Node]struct{} {
+	if _, ok := result[self]; ok {
+		return result
+	}
+	if result == nil {
+		result = make(map[*Node]struct{})
+	}
+	result[self] = struct{}{}
+	for _, subnode := range self.subnodes {
+		result = subnode.getNode().addToPrenodeSet(result)
+	}
+	return self.allPrenodes(result)
+}
+
+// setPreflightPrenode makes this node and the nodes in it wait for the
+// given preflight node, except for those which the preflight node itself
+// depends on and the pipelines containing them.  Returns false if this node
+// was such an exception.
+func (self *Node) setPreflightPrenode(prenode Nodable, producers map[*Node]struct{}) bool {
+	if len(producers) == 0 {
+		self.setPrenode(prenode)
+		return true
+	}
+	if _, ok := producers[self]; ok {
+		return false
+	}
+	wait := true
+	for _, subnode := range self.subnodes {
+		if !subnode.getNode().setPreflightPrenode(prenode, producers) {
+			wait = false
+		}
+	}
+	if wait {
+		if self.prenodes == nil {
+			self.prenodes = make(map[string]Nodable)
+		}
+		self.prenodes[prenode.GetFQName()] = prenode
+		prenode.getNode().setPostNode(self)
+	}
+	return wait
+}
+
 func (self *Node) setPostNode(postnode *Node) {
 	if self.postnodes == nil {
 		self.postnodes = map[string]Nodable{
